@@ -1,7 +1,7 @@
 """C15 - liquid-liquid and solid-liquid splits meet their equilibrium and labelling rules."""
 import random
 
-from harness import par, tlc
+from harness import core, par, tlc
 from harness.drivers import liquideq as dl
 
 ASSUME = [
@@ -124,6 +124,8 @@ def sle_trace(seed, tid):
         steps.append(dict(op='sle', a=dict(solute=w.solute, T=int(round(T * 1000)), given=sol is not None, pure=w.pure, first=n == 0), post=dict(T=0, z='none', cs='none'), obs=obs))
     return dict(id=tid, mode='seq', init=dict(T=0, z='none', cs='none'), steps=steps)
 
+RULE = ' Counting: evaluations = every executed call; distinct_nontrivial = distinct (operation, arguments, state before the call) among the calls that were judged, i.e. in contract, not state shaping and (where the property says so) returned normally.'
+
 
 def key_of(step, clause):
     a = step['a']
@@ -173,6 +175,7 @@ def run(ctx):
     defs, cfgc = dl.tla_constants()
     stats = dict(ok=0, ops={})
     todo, n_traces = traces, 0
+    cases = []
     method_of = {}
     while todo:
         v = tlc.validate_traces('LiquidEq', defs, cfgc, todo, procs=16)
@@ -181,6 +184,8 @@ def run(ctx):
         for t in todo:
             x = v[t['id']]
             n_ok = x['l'] - 1 if x['code'] in ('rejected', 'ooc') else len(t['steps'])
+            for i, s in enumerate(t['steps'], 1):
+                cases.append((i <= n_ok, [s['op'], s['a'], t['id'].rstrip('c') if s['op'] == 'sle' else (t['steps'][i - 2]['post'] if i > 1 else t['init'])]))
             for s in t['steps'][:n_ok]:
                 stats['ok'] += 1
                 stats['ops'][s['op']] = stats['ops'].get(s['op'], 0) + 1
@@ -200,6 +205,8 @@ def run(ctx):
                     'protocol (Fresh, MemSound); TLC witness schedules are replayed on real streams (reusing stream, non-reusing twin, scaled twin) and the split, '
                     'activities, proportionality and labelling judged by TLC; random lle histories over 2-5 chemicals with every method; random sle histories '
                     '(3 solutes, 0-3 solvents, given / computed solubility, 250-450 K)')
+    cov.update(core.case_stats(cases))
+    cov['rule'] += RULE
     return 'exploration', cov, ASSUME
 
 
